@@ -140,14 +140,14 @@ pub fn c27_grow_6(s: &mut Src) {
 }
 
 harnesses! {
-    #[kani::unwind(10)] #[kani::stub(alloc::fmt::format, crate::env::stub_format)] #[kani::stub(<mmtk::util::os::OS as mmtk::util::os::OSMemory>::dzmmap, crate::c27_rawgrow::stub_dzmmap)] c27_grow_1534; // timeout=900
-    #[kani::unwind(10)] #[kani::stub(alloc::fmt::format, crate::env::stub_format)] #[kani::stub(<mmtk::util::os::OS as mmtk::util::os::OSMemory>::dzmmap, crate::c27_rawgrow::stub_dzmmap)] c27_grow_1100; // timeout=900
-    #[kani::unwind(10)] #[kani::stub(alloc::fmt::format, crate::env::stub_format)] #[kani::stub(<mmtk::util::os::OS as mmtk::util::os::OSMemory>::dzmmap, crate::c27_rawgrow::stub_dzmmap)] c27_grow_1022; // timeout=900
-    #[kani::unwind(10)] #[kani::stub(alloc::fmt::format, crate::env::stub_format)] #[kani::stub(<mmtk::util::os::OS as mmtk::util::os::OSMemory>::dzmmap, crate::c27_rawgrow::stub_dzmmap)] c27_grow_600; // timeout=900
-    #[kani::unwind(10)] #[kani::stub(alloc::fmt::format, crate::env::stub_format)] #[kani::stub(<mmtk::util::os::OS as mmtk::util::os::OSMemory>::dzmmap, crate::c27_rawgrow::stub_dzmmap)] c27_grow_510; // timeout=900
-    #[kani::unwind(10)] #[kani::stub(alloc::fmt::format, crate::env::stub_format)] #[kani::stub(<mmtk::util::os::OS as mmtk::util::os::OSMemory>::dzmmap, crate::c27_rawgrow::stub_dzmmap)] c27_grow_1024; // timeout=900
-    #[kani::unwind(10)] #[kani::stub(alloc::fmt::format, crate::env::stub_format)] #[kani::stub(<mmtk::util::os::OS as mmtk::util::os::OSMemory>::dzmmap, crate::c27_rawgrow::stub_dzmmap)] c27_grow_1023; // timeout=900
-    #[kani::unwind(10)] #[kani::stub(alloc::fmt::format, crate::env::stub_format)] #[kani::stub(<mmtk::util::os::OS as mmtk::util::os::OSMemory>::dzmmap, crate::c27_rawgrow::stub_dzmmap)] c27_grow_512; // timeout=900
-    #[kani::unwind(10)] #[kani::stub(alloc::fmt::format, crate::env::stub_format)] #[kani::stub(<mmtk::util::os::OS as mmtk::util::os::OSMemory>::dzmmap, crate::c27_rawgrow::stub_dzmmap)] c27_grow_511; // timeout=900
-    #[kani::unwind(10)] #[kani::stub(alloc::fmt::format, crate::env::stub_format)] #[kani::stub(<mmtk::util::os::OS as mmtk::util::os::OSMemory>::dzmmap, crate::c27_rawgrow::stub_dzmmap)] c27_grow_6; // timeout=900
+    #[kani::unwind(10)] #[kani::stub(alloc::fmt::format, crate::env::stub_format)] #[kani::stub(<mmtk::util::os::OS as mmtk::util::os::OSMemory>::dzmmap, crate::c27_rawgrow::stub_dzmmap)] c27_grow_1534; // tier=wip timeout=1200 jobs=3
+    #[kani::unwind(10)] #[kani::stub(alloc::fmt::format, crate::env::stub_format)] #[kani::stub(<mmtk::util::os::OS as mmtk::util::os::OSMemory>::dzmmap, crate::c27_rawgrow::stub_dzmmap)] c27_grow_1100; // tier=wip timeout=1200 jobs=3
+    #[kani::unwind(10)] #[kani::stub(alloc::fmt::format, crate::env::stub_format)] #[kani::stub(<mmtk::util::os::OS as mmtk::util::os::OSMemory>::dzmmap, crate::c27_rawgrow::stub_dzmmap)] c27_grow_1022; // tier=wip timeout=1200 jobs=3
+    #[kani::unwind(10)] #[kani::stub(alloc::fmt::format, crate::env::stub_format)] #[kani::stub(<mmtk::util::os::OS as mmtk::util::os::OSMemory>::dzmmap, crate::c27_rawgrow::stub_dzmmap)] c27_grow_600; // tier=wip timeout=1200 jobs=3
+    #[kani::unwind(10)] #[kani::stub(alloc::fmt::format, crate::env::stub_format)] #[kani::stub(<mmtk::util::os::OS as mmtk::util::os::OSMemory>::dzmmap, crate::c27_rawgrow::stub_dzmmap)] c27_grow_510; // tier=wip timeout=1200 jobs=3
+    #[kani::unwind(10)] #[kani::stub(alloc::fmt::format, crate::env::stub_format)] #[kani::stub(<mmtk::util::os::OS as mmtk::util::os::OSMemory>::dzmmap, crate::c27_rawgrow::stub_dzmmap)] c27_grow_1024; // tier=wip timeout=1200 jobs=3
+    #[kani::unwind(10)] #[kani::stub(alloc::fmt::format, crate::env::stub_format)] #[kani::stub(<mmtk::util::os::OS as mmtk::util::os::OSMemory>::dzmmap, crate::c27_rawgrow::stub_dzmmap)] c27_grow_1023; // tier=wip timeout=1200 jobs=3
+    #[kani::unwind(10)] #[kani::stub(alloc::fmt::format, crate::env::stub_format)] #[kani::stub(<mmtk::util::os::OS as mmtk::util::os::OSMemory>::dzmmap, crate::c27_rawgrow::stub_dzmmap)] c27_grow_512; // tier=wip timeout=1200 jobs=3
+    #[kani::unwind(10)] #[kani::stub(alloc::fmt::format, crate::env::stub_format)] #[kani::stub(<mmtk::util::os::OS as mmtk::util::os::OSMemory>::dzmmap, crate::c27_rawgrow::stub_dzmmap)] c27_grow_511; // tier=wip timeout=1200 jobs=3
+    #[kani::unwind(10)] #[kani::stub(alloc::fmt::format, crate::env::stub_format)] #[kani::stub(<mmtk::util::os::OS as mmtk::util::os::OSMemory>::dzmmap, crate::c27_rawgrow::stub_dzmmap)] c27_grow_6; // tier=wip timeout=1200 jobs=3
 }
